@@ -89,8 +89,8 @@ TCb0S == /\ api = "solve_ivp" /\ l <= N /\ Rec[l].e # "ev"
          /\ UNCHANGED <<l, cid, api>>
 TCbS == /\ api = "solve_ivp" /\ l <= N /\ Rec[l].e # "ev"
         /\ IF Rec[l].e = "ret"
-           THEN Callback("Interrupt", "normal", 0) /\ UNCHANGED <<l, cid, api>>
-           ELSE PostOk(l) /\ Callback("Continue", ChoiceOf(Rec[l].t), StepTo(l + 1)) /\ Adv(1)
+           THEN Callback("Interrupt", "normal", 0, x) /\ UNCHANGED <<l, cid, api>>
+           ELSE PostOk(l) /\ Callback("Continue", ChoiceOf(Rec[l].t), StepTo(l + 1), x) /\ Adv(1)
 TMod0 == Plain(l) /\ Rec[l].r = x /\ ModEval0 /\ Adv(1)
 TJac == Line("jac") /\ Rec[l].r = x /\ JacEval /\ Adv(1)
 \* evaluations made by the finite-difference Jacobian shim of the recorder: inside JacEval
@@ -122,10 +122,11 @@ TRefine == /\ Plain(l) /\ Rec[l].r = x /\ Hk(l + 1, "err_final")
            /\ Adv(2)
 TAccept == Plain(l) /\ Rec[l].r = xph /\ AcceptEval /\ Adv(1)
 TCb ==
-    /\ Line("cb") /\ Rec[l].k = ncb /\ Rec[l].x.r = x /\ Rec[l].xold.r = xold
+    \* (the line carries x as the callback left it: after ModifiedSolution it may lie inside the step)
+    /\ Line("cb") /\ Rec[l].k = ncb /\ Rec[l].xold.r = xold
     /\ IF Flag(Rec[l].ret) \in {"Interrupt", "Modified"}
-       THEN Callback(Flag(Rec[l].ret), "normal", 0) /\ Adv(1)
-       ELSE PostOk(l + 1) /\ Callback("Continue", ChoiceOf(Rec[l + 1].t), StepTo(l + 2)) /\ Adv(2)
+       THEN Callback(Flag(Rec[l].ret), "normal", 0, IF Flag(Rec[l].ret) = "Modified" THEN Rec[l].x.r ELSE x) /\ Adv(1)
+       ELSE Rec[l].x.r = x /\ PostOk(l + 1) /\ Callback("Continue", ChoiceOf(Rec[l + 1].t), StepTo(l + 2), x) /\ Adv(2)
 TMod == Plain(l) /\ Rec[l].r = x /\ PostOk(l + 1) /\ ModEval(ChoiceOf(Rec[l + 1].t), StepTo(l + 2)) /\ Adv(2)
 TRet ==
     /\ pc = "done" /\ Line("ret")
